@@ -227,3 +227,54 @@ func ZZC14Density() {
 	zzReach("density-ok")
 	zzWitness("end")
 }
+
+// ZZC14Gen: generated programs with a recursive function, a procedure and
+// loops (gen2.go) are stopped at a symbolic yield number k. The effects up to
+// the stop must be a prefix of the trace the *reference interpreter* gives for
+// the uninterrupted run, the run must end with ErrStopped and evaluate nothing
+// further; an uninterrupted run makes at least one yield per call and per
+// loop iteration of the reference run.
+func ZZC14Gen() {
+	K := zzParam("KG", 20)
+	cfg := &zz2Cfg{maxDepth: zzParam("GD", 1), lens: []int{1, 1, 1, 1, 1}, recDepth: 1, mainSkew: 0}
+	gp := zz2GenProg(cfg)
+	src := gp.render()
+	p := &zzPlat{}
+	y := &zzYielder{stopAt: zzInt("k", 1, K), plat: p}
+	p.yielder = y
+	ev := NewEvaluator(p)
+	y.ev = ev
+	prog := zzMustParse(ev, src, "C14 gen")
+	if prog == nil {
+		return
+	}
+	err := ev.Eval(prog)
+	want, calls := zz2RunRef(gp, 1, 2, true)
+	wantFx := strings.Split(want, "|")
+	fx := zzTraceEffects(p.trace)
+	stopped := ev.Stopped
+	for i, e := range fx {
+		if i >= len(wantFx) || e != wantFx[i] {
+			zzLog("C14 gen: effect " + strconv.Itoa(i) + " is " + e + "\n" + src)
+		}
+		zzAssert(i < len(wantFx) && e == wantFx[i], "C14 gen: the effects of an interrupted run are a prefix of the effects the definition gives for the uninterrupted run")
+	}
+	if stopped {
+		zzReach("gen-stopped")
+		zzAssert(err != nil && errors.Is(err, ErrStopped), "C14 gen: once the stop flag is raised the run ends with ErrStopped")
+		zzAssert(y.n == y.stopAt, "C14 gen: no evaluation step (yield) happens after the stop flag is raised")
+		after := false
+		for _, t := range p.trace {
+			if t == "STOP" {
+				after = true
+			} else if after {
+				zzAssert(false, "C14 gen: no platform effect after the stop")
+			}
+		}
+	} else {
+		zzReach("gen-finished")
+		zzAssert(err == nil && len(fx) == len(wantFx), "C14 gen: an uninterrupted run performs exactly the effects of the definition")
+		zzAssert(y.n >= calls, "C14 gen: the yielder is called at least once per function call of the run")
+	}
+	zzWitness("end")
+}
